@@ -48,7 +48,8 @@ var propSpecs = map[string]*PropSpec{
 		{"benchmath", "compare", "AssumeNothing.Compare on all pairs of small samples: both sizes, p in [0,1], symmetric, invariant under reordering and common rescaling, equal to the exact permutation p-value for untied samples, threshold carried — the statistical content lives in the external module go-moremath and is outside deductive reach"}}},
 	"C14": {ID: "C14", Pkgs: []string{"./cmd/benchstat/internal/benchtab", "./benchproc"}},
 	"C16": {ID: "C16", Pkgs: []string{"./cmd/benchstat/internal/texttab", "./benchproc"}},
-	"C17": {ID: "C17", Pkgs: []string{"./benchstat"}},
+	"C17": {ID: "C17", Pkgs: []string{"./benchstat", "./internal/stats"}, BoundedChecks: []boundedSpec{
+		{"benchstat", "legacy", "whole Tables() outputs against an independent recomputation: outlier fence (R8 quartiles) and retained values in input order, min<=mean<=max, the significance gate / percentage / direction / note for every pair of samples and each delta test, first-appearance and stable sort order, geomean row — Tables, computeStats and addGeomean are not under contract"}}},
 	"C19": {ID: "C19", Pkgs: []string{"./storage/db", "./storage/query"}, BoundedChecks: []boundedSpec{
 		{"storage/db", "merge", "pairs and triples of query parts on one key evaluated by brute force (conjunction semantics, contradiction detection), and parseQuery on multi-term queries"},
 		{"analysis/app", "roundtrip", "a label value quoted by addToQuery is split back by SplitWords into exactly the original word, for every short string over the characters that matter to quoting"}}},
